@@ -33,8 +33,8 @@ class C04(Check):
     RULE += PRELUDE_RULE
     ASSUMPTIONS = ['keys are hashable and == is an equivalence on them (NaN / unhashable keys are outside the statement)']
     ANCHORS = ['rxsci/operators/group_by.py', 'rxsci/operators/multiplex.py', 'rxsci/state/memory_store.py']
-    REQUIRED_TAGS = ['top', 'group', 'roll', 'roll_eq', 'split', 'key=kt', 'key=ks', 'key=kbig', 'key=kf', 'key=kmix', 'key=kneg', 'key=kmers', 'key=ktneg', 'key=knp', 'key=kcent', 'key=kobj', 'equal-items-different-keys', 'over-65536-keys', 'per-item', 'to_list',
-                     'many-keys', 'empty', 'over-256-keys'] + ['operator-object-used-in-two-pipelines'] + PRELUDE_TAGS + ['prelude:overlap']
+    REQUIRED_TAGS = ['consumer-runs-a-pipeline-built-with-the-same-operator-object', 'top', 'group', 'roll', 'roll_eq', 'split', 'key=kt', 'key=ks', 'key=kbig', 'key=kf', 'key=kmix', 'key=kneg', 'key=kmers', 'key=ktneg', 'key=knp', 'key=kcent', 'key=kobj', 'equal-items-different-keys', 'over-65536-keys', 'per-item', 'to_list',
+                     'many-keys', 'empty', 'over-256-keys'] + ['operator-object-used-in-two-pipelines'] + ['history-fed-more-than-the-judged-stream'] + PRELUDE_TAGS + ['prelude:overlap']
     REQUIRED_OBSERVED = ['child_lifetimes_checked', 'parent_lifetimes_checked', 'groups_flushed_at_completion']
 
     def generate(self, rng, tier, shard, nshards):
@@ -136,6 +136,9 @@ class C04(Check):
             if len(set(idxs)) != len(idxs):
                 return out.fail('group_by:two-groups-of-one-lifetime-share-an-index', indices=idxs[:20])
         out.observed['events_logged'] += len(ob.log)
+        if case['parent'] == 'top' and len(items) <= 150 and not out.failures:
+            out.tags.append('consumer-runs-a-pipeline-built-with-the-same-operator-object')
+            windows.nested_consumer(['group_by', case['key'], None], items, items[:(len(items) * 2) // 3 + 1], out, 'group_by', inner=inner)
         return out
 
     def shrink(self, case):
